@@ -26,6 +26,7 @@ CONSTANTS Kinds,      \* subset of {"output", "section", "io", "iosec", "section
           MaxTexts,   \* bound on the number of writing calls in a behaviour
           Flags,      \* flag words explored by Next (subset of FlagWords)
           Verbs,      \* verbosity levels explored by Next (subset of Levels)
+          TextShapes, \* shapes of the text a call is given (subset of MarkShapes) - the gate must not depend on the text
           Repaired
 
 VARIABLES obj,     \* [kind, dec]                                      (fixed during a behaviour)
@@ -40,6 +41,11 @@ NoFlags == -1                      \* flags=None / flags not passed
 Levels == {0, 1, 2, 4}             \* NORMAL, VERBOSE, VERY_VERBOSE, DEBUG  (flags.py)
 LevelBits == {1, 2, 4}
 FlagWords == {NoFlags} \cup 0..7
+\* the text of call t is built around the marker m<t>. : "plain" the marker alone, "nl" ending in a newline,
+\* "mid" after a line break, "pad" between blanks.  (The recorded traces add shapes without a marker - the empty
+\* text, blanks only, a newline only - for which only "nothing when shut" can be observed.)
+MarkShapes == {"plain", "nl", "mid", "pad"}
+NoMarkShapes == {"empty", "blank", "onlynl"}
 Streams == 1..2
 
 \* ------------------------------------------------------------------ P-layer
@@ -144,7 +150,7 @@ SetVerbosity(g, v) ==
   /\ last' = [op |-> "verbosity", g |-> g, v |-> v]
   /\ UNCHANGED <<obj, seen, shut, next>>
 
-Write(name, o, f) ==
+Write(name, o, f, sh) ==
   LET role == RoleOf(obj.kind)
       t == next
       tgt == TargetOf(role, name, o)
@@ -157,14 +163,14 @@ Write(name, o, f) ==
      /\ next' = next + 1
      /\ seen' = seen \cup res.ids
      /\ shut' = IF HasText(name) /\ \A x \in adr : ~Open(outs[x], f) THEN shut \cup {t} ELSE shut
-     /\ last' = [op |-> "write", name |-> name, o |-> o, f |-> f, t |-> t, hasText |-> HasText(name), adr |-> adr,
+     /\ last' = [op |-> "write", name |-> name, o |-> o, f |-> f, sh |-> sh, t |-> t, hasText |-> HasText(name), adr |-> adr,
                  ids |-> OnStream(outs, tgt, res.ids, {}), any |-> OnStream(outs, tgt, res.any, FALSE)]
      /\ UNCHANGED obj
 
 Next == \/ \E g \in Groups, q \in BOOLEAN : SetQuiet(g, q)
         \/ \E g \in Groups, v \in Verbs : SetVerbosity(g, v)
-        \/ \E name \in SectionMethods \cup IOMethods, o \in DOMAIN outs, f \in Flags :
-              (RoleOf(obj.kind) = "io" => o = 1) /\ Write(name, o, f)
+        \/ \E name \in SectionMethods \cup IOMethods, o \in DOMAIN outs, f \in Flags, sh \in TextShapes :
+              (RoleOf(obj.kind) = "io" => o = 1) /\ Write(name, o, f, sh)
 
 Spec == Init /\ [][Next]_vars
 
